@@ -206,7 +206,9 @@ def gen_case(world, tier, prop):
   fmt = frng.choice([None, None, None, 'exc', 'base'])
   nested = frng.random() < 0.3
   return {'defs': defs, 'root': root, 'shape': shape, 'fmt': fmt,
-          'nested': nested, 'only_uid': None}
+          'nested': nested, 'only_uid': None,
+          'mutating': frng.random() < 0.25, 'sticky': frng.random() < 0.2,
+          'refused': frng.random() < 0.2}
 
 
 def _refresh_ids(x, base):
@@ -397,6 +399,23 @@ def run(case):
     mk_m(d)
     mk_i(d)
   mroot, root = mk_m(case['root']), mk_i(case['root'])
+  rec.mutate_args = bool(case.get('mutating'))
+  if case.get('refused'):
+    # state left behind by an operation that is REFUSED: swapping the callable
+    # for one that lacks an argument the node has (raises TypeError)
+    from fiddle._src import mutate_buildable
+    swap = {'n0': ('z', 'n0b'), 'n0b': ('w', 'n0')}
+    done = 0
+    for b in mk_i.nodes:
+      name = getattr(b.__fn_or_cls__, '__name__', None)
+      if name in swap and swap[name][0] in b.__arguments__ and done < 2:
+        try:
+          mutate_buildable.update_callable(b, fns[swap[name][1]])
+        except TypeError:
+          done += 1
+          bump(faults, 'refused_op')
+        else:
+          raise AssertionError('harness: update_callable was expected to be refused')
   nodes = reachable_nodes(mroot)
   cfg_nodes = [n for n in nodes if n.btype == 'Config']
   if not cfg_nodes:
@@ -450,6 +469,12 @@ def run(case):
     res['steps'] += len(rec.log)
     results.append(out)
     log = list(rec.log)
+    now = C.canon(root)
+    if now != before:
+      viols.append(V('C05', 'config-modified',
+                     f'fault-free build #{b} modified the configuration: '
+                     + '; '.join(C.diff(before, now)), shape='none', fmt=None))
+      return res
     got = C.canon(out)
     if got != exp_canon:
       viols.append(V('C02', 'graph-mismatch',
@@ -509,6 +534,12 @@ def run(case):
   alive = []   # escaped exceptions stay referenced: proxy classes stay cached
   for u in targets:
     exc, expect = stubmod.make_exception(shape, u)
+    if (case.get('sticky') and alive and isinstance(alive[-1], Exception)
+        and expect == 'full'):
+      # the very exception object that escaped from the previous failing build
+      # is raised again, by another node (sticky-error caches do this)
+      exc = alive[-1]
+      bump(probes, 'sticky_exception_reraised')
     state = {'hit': 0}
 
     def on_invoke(r, u=u, exc=exc, state=state):
